@@ -20,4 +20,31 @@ theorem election_safety_current_false :
 /-- the same schedule is harmless under the repaired `_step_down` -/
 example : electionOk (frames Variant.repaired 5 witnessD1) = true := by decide
 
+/-- corpus/C11/d2-match-inflation.json as recorded on the real nodes -/
+def witnessD2 : List Act :=
+  [ .timeout 0, .deliver 0, .deliver 1, .deliver 4, .deliver 5, .submit 0 0 ⟨1, 0, 0, 1, none⟩,
+    .submit 0 1 ⟨2, 0, 1, 2, none⟩, .heartbeat 0, .deliver 10, .timeout 4, .timeout 4, .deliver 21,
+    .deliver 22, .deliver 23, .deliver 24, .deliver 26, .deliver 29, .submit 4 2 ⟨3, 0, 0, 7, none⟩,
+    .submit 4 3 ⟨4, 0, 1, 7, none⟩, .heartbeat 4, .deliver 32, .deliver 34, .timeout 1, .deliver 35,
+    .deliver 37, .deliver 39, .deliver 40 ]
+
+/-- pinned acknowledgement rule (`match_index = last_index`): entries committed by node 4 in term 2
+    are missing from the log of node 1, leader of term 3 -/
+theorem leader_completeness_current_false :
+    leaderCompleteOk (frames Variant.current 5 witnessD2) = false := by decide
+
+example : leaderCompleteOk (frames Variant.repaired 5 witnessD2) = true := by decide
+
+/-- corpus/C11/d4-stale-future.json as recorded on the real nodes -/
+def witnessD4 : List Act :=
+  [ .timeout 0, .deliver 0, .deliver 2, .submit 0 0 ⟨1, 0, 0, 1, none⟩, .timeout 2, .timeout 2,
+    .deliver 8, .deliver 9, .submit 2 1 ⟨2, 0, 0, 7, none⟩, .heartbeat 2, .deliver 13, .deliver 12,
+    .deliver 14, .heartbeat 2, .deliver 16 ]
+
+/-- pinned truncation rule: the future of command 1 resolves with index 1, where command 2 was applied -/
+theorem submit_resolves_own_command_current_false :
+    submitOk (frames Variant.current 3 witnessD4) = false := by decide
+
+example : submitOk (frames Variant.repaired 3 witnessD4) = true := by decide
+
 end HappyModel.C11
